@@ -1,6 +1,8 @@
 import SeqVerif.Base.Proto
 import SeqVerif.Model.ParserTok
 import SeqVerif.Model.SeqQLFilter
+import SeqVerif.Model.LegacyParser
+import SeqVerif.Model.SeqQLLexer
 import SeqVerif.Extracted.C12
 /-!
 Driver for C12.  Trees are written in prefix notation, comma separated: `a<n>` leaf, `!` not, `&` and, `|` or, `^` nand
@@ -85,7 +87,7 @@ def bits (k : Nat) (t : Ast Nat) : String :=
 
   `sqlex <cs 0|1> <mapping> <tokens>` -> `ok <tree> <pipes>` | `err` | `panic`      (SV.Parser.parseSeqQL)
   mapping = `nil` | `-` | `,`-separated `<hex field name>=<type char>`
-  tokens  = `;`-separated `<q|-><s|->:<kw>:<runes>`, runes = `.`-separated `<hex bytes>/<code point>/<l><n><d>/<lower>` or `-`
+  tokens  = `;`-separated `<q|-><s|->:<kw>:<runes>`, runes = `.`-separated `<hex bytes>/<code point>/<l><n><d><s>/<lower>` or `-`
   tree leaves: `L<hex field>~<term>...` (term = `t<code points joined by _>` text, `s...` symbol), `R<hex field>~<from>~<to>~<incFrom><incTo>`
   pipes: `-` or `,`-separated `P<e|i>~<hex field>...` -/
 
@@ -104,7 +106,7 @@ def parseRn (s : String) : Option Rn :=
     let cp ← cp.toNat?
     let lo ← lo.toNat?
     match cls.toList with
-    | [l, n, d] => pure ⟨b, cp, l = '1', n = '1', d = '1', lo⟩
+    | [l, n, d, sp] => pure ⟨b, cp, l = '1', n = '1', d = '1', lo, sp = '1'⟩
     | _ => none
   | _ => none
 
@@ -157,6 +159,56 @@ def stepLex (cs m toks : String) : String :=
     | .oof => "oof"
   | _, _, _ => "bad-op"
 
+/-- `lgstr <cs> <mapping> <runes>` -> `ok <tree>` | `err` | `panic`       (SV.Parser.parseQueryRunes on `[]rune(query)`)
+    `aggstr <cs> <runes>` -> `ok <leaf>` | `ok -` | `err` | `panic`            (SV.Parser.parseAggFilter) -/
+def stepLegacy (cs m rs : String) : String :=
+  match bool? cs, parseMapping m, (splitList rs ".").mapM parseRn with
+  | some cs, some m, some rs =>
+    match parseQueryRunes ⟨SV.Extracted.C12.legacyDefaultPanics, cs, m⟩ SV.Extracted.C12.legacyMaxNest rs with
+    | .ok t => s!"ok {",".intercalate (fmtTreeL t)}"
+    | .err => "err"
+    | .panic => "panic"
+    | .oof => "oof"
+  | _, _, _ => "bad-op"
+
+def stepAgg (cs rs : String) : String :=
+  match bool? cs, (splitList rs ".").mapM parseRn with
+  | some cs, some rs =>
+    match parseAggFilter SV.Extracted.C12.legacyDefaultPanics cs rs with
+    | .ok (some l) => s!"ok {fmtLeaf l}"
+    | .ok none => "ok -"
+    | .err => "err"
+    | .panic => "panic"
+    | .oof => "oof"
+  | _, _ => "bad-op"
+
+/-- `lexer <qrunes>` -> `ok <tokens>`  (SV.Parser.lexAll); qrunes = `.`-separated `<rune>!<uqS>!<uqD>` with
+    uq = `-` | `<rune>~<runes consumed>`; tokens = `-` | `;`-separated `<q|-><s|-><r|->:<hex bytes of the token>` -/
+def parseUq (s : String) : Option (Option (Rn × Nat)) :=
+  if s = "-" then some none
+  else match s.splitOn "~" with
+    | [r, k] => do pure (some ((← parseRn r), (← k.toNat?)))
+    | _ => none
+
+def parseQRn (s : String) : Option QRn :=
+  match s.splitOn "!" with
+  | [r, a, b] => do pure ⟨(← parseRn r), (← parseUq a), (← parseUq b)⟩
+  | _ => none
+
+def fmtRawTok (t : RawTok) : String :=
+  (if t.quoted then "q" else "-") ++ (if t.space then "s" else "-") ++ (if t.raw then "r" else "-") ++ ":" ++
+    fmtHex (t.rs.flatMap (·.bytes))
+
+def stepLexer (q : String) : String :=
+  match (splitList q ".").mapM parseQRn with
+  | some q =>
+    match lexAll (q.length + 1) q with
+    | .ok ts => "ok " ++ fmtList fmtRawTok ts ";"
+    | .err => "err"
+    | .panic => "panic"
+    | .oof => "oof"
+  | none => "bad-op"
+
 def step (line : String) : String :=
   match fields line with
   | ["pnot", t] =>
@@ -172,6 +224,9 @@ def step (line : String) : String :=
     | some k, some t => if k ≤ 8 then s!"ok {bits k t}" else "bad-op"
     | _, _ => "bad-op"
   | ["sqlex", cs, m, toks] => stepLex cs m toks
+  | ["lexer", q] => stepLexer q
+  | ["lgstr", cs, m, rs] => stepLegacy cs m rs
+  | ["aggstr", cs, rs] => stepAgg cs rs
   | [cmd, m, toks] =>
     match (splitList m).mapM parseFType, (splitList toks).mapM parseTok with
     | some m, some toks =>
